@@ -36,6 +36,8 @@ func junkAt(w *World, round string, now int64, thorough bool) []Item {
 	mkStart := func(label string, tasks []requests.SigningTask) {
 		out = append(out, w.Msg(round, "event_signing_start", requests.SigningBatchProposalStartRequest{BatchID: "batch-junk", ParticipantId: 1, CreatedAt: T(95), SigningTasks: tasks}, u[1], "", u[1], now, label))
 	}
+	// a well-formed, validly signed proposal: refused whenever the round is not idle
+	mkStart("valid-proposal", w.Tasks("batch-junk"))
 	mkStart("range-negative", []requests.SigningTask{{MessageID: "r", RangeStart: -3, RangeEnd: 1}})
 	mkStart("range-beyond", []requests.SigningTask{{MessageID: "r", RangeStart: 18630, RangeEnd: 18640}})
 	mkStart("range-empty", []requests.SigningTask{{MessageID: "r", RangeStart: 5, RangeEnd: 5}})
